@@ -122,8 +122,13 @@ def judge_derive_path(ctx, case):
     xk, node = _mk_parent(case)
     path = case["path"]
     exp = rb32.derive(xk, path)
+    pform = case.get("pform", "list")
     try:
-        got = node.derive_path(index_list=list(path))
+        got = node.derive_path(index_list=gen.path_form(pform, path))
+    except TypeError as e:
+        if pform in ("list", "tuple"):
+            return ctx.judge("derive_path", False, case, exp.fields(), e, cls="path|len%d" % len(path), outcome="raised", mech="C01.derive_path.raised")
+        return ctx.judge("derive_path", True, case, exp.fields(), e, cls="path|form-%s" % pform, outcome="shape-refused")
     except Exception as e:  # noqa
         return ctx.judge("derive_path", False, case, exp.fields(), e, cls="path|len%d" % len(path),
                          outcome="raised", mech="C01.derive_path.raised")
@@ -140,7 +145,7 @@ def judge_derive_path(ctx, case):
         e2 = rb32.derive(xk, path[:depth_back])
         bad += bridge.compare_node(n, e2, case["testnet"], True)
     return ctx.judge("derive_path", not bad, case, exp.fields(), bad,
-                     cls="path|len%d|%s" % (min(len(path), 13), case.get("form", "ctor")),
+                     cls="path|len%d|%s|%s" % (min(len(path), 13), case.get("form", "ctor"), pform),
                      mech="C01.derive_path." + (bad[0][0] if bad else ""))
 
 
@@ -282,6 +287,7 @@ def run(ctx):
                 case["pindex"], case["pfp"] = 0, b"\x00" * 4
             case["path"] = [gen.index(rnd)[1] for _ in range(L)]
             case["index"] = case["path"][-1]
+            case["pform"] = rnd.choice(gen.PATH_FORMS)
             judge_derive_path(ctx, case)
         if ctx.thorough and ctx.shard == 0:
             case = gen_parent(rnd)
